@@ -80,6 +80,14 @@ def _child(job: dict, wfd: int):
     except OSError:
         pass
     try:
+        # a run that allocates without bound (a walk that never terminates) gets MemoryError - an
+        # outcome the oracles can judge - instead of being killed by the kernel without a result
+        import resource
+
+        resource.setrlimit(resource.RLIMIT_AS, (3 << 30, 3 << 30))
+    except (ImportError, ValueError, OSError):
+        pass
+    try:
         faulthandler.enable(file=sys.stderr)
         to = float(job.get("timeout", 60))
         faulthandler.dump_traceback_later(max(1.0, to - 0.5), exit=False, file=sys.stderr)
